@@ -174,6 +174,12 @@ func (ip *Inode) Resize(atxn *alloctxn.AllocTxn, sz uint64) bool {
 	var doshrink = false
 	oldsz := util.RoundUp(ip.Size, disk.BlockSize)
 	util.DPrintf(5, "Resize %v to sz %d\n", oldsz, newSz)
+	if sz < ip.Size && sz%disk.BlockSize != 0 {
+		// clear the part of the last block that is cut off, so that it reads
+		// as zeros when the file grows again
+		n := util.Min(util.RoundUp(sz, disk.BlockSize)*disk.BlockSize, ip.Size) - sz
+		ip.Write(atxn, sz, n, make([]byte, n))
+	}
 	ip.Size = newSz
 	newSz = util.RoundUp(sz, disk.BlockSize)
 	if newSz < oldsz {
